@@ -1,0 +1,5 @@
+//go:build !verif
+
+package inode
+
+func verifAccess(ip *Inode, what string) {}
